@@ -218,14 +218,26 @@ def split_coarse_rounding(case, tag, event):
         P = [(x, y) for x, y, _ in V]
         def orient(a, b, c):
             return (b[0] - a[0]) * (c[1] - a[1]) - (b[1] - a[1]) * (c[0] - a[0])
+        bad = set()
         for e in range(2 * ne):
             nx, pv, fc, og = E[e]
             if fc != 0:
                 tri = (og, E[nx][3], E[E[nx][0]][3])
                 if orient(P[tri[0]], P[tri[1]], P[tri[2]]) <= 0:
-                    if not any(V[k][2] == "888000" for k in tri):
-                        return False
-                    found = True
+                    bad.add(frozenset(tri))
+        # every degenerate face has a corner created by the split, or shares an edge with such a face (a rounded split vertex that lands on
+        # the line through several existing vertices flattens a whole fan of faces)
+        ok = {t for t in bad if any(V[k][2] == "888000" for k in t)}
+        changed = True
+        while changed:
+            changed = False
+            for t in bad - ok:
+                if any(len(t & u) >= 2 for u in ok):
+                    ok.add(t); changed = True
+        if bad - ok:
+            return False
+        if bad:
+            found = True
     return found
 
 KNOWN_CLASSES["split_coarse_rounding"] = split_coarse_rounding
